@@ -26,6 +26,9 @@ def check(repo: Repo, rep: Report) -> None:
     rep.assumptions += ["is_stopped is set by Observer.on_error/on_completed before the core runs (decided under C01)"]
     SC.rules(rep, {"B1-snapshot": 3, "B2-state-before-callout": 3, "B3-subscribe-branches": 2, "B4-check-disposed": 3, "B5-dispose": 1})
     rep.rule("B6-inner-subscription", "InnerSubscription.dispose removes exactly its observer, idempotently; registration is append-only", floor=3)
+    rep.rule("B7-element-keeps-subscription", "the observer wrappers' on_next never stops or detaches the observer (exception paths included)", floor=2)
+    from .common_own import rule_element_not_terminal
+    rule_element_not_terminal(repo, rep, "B7-element-keeps-subscription")
     cls = repo.fn(S, "Subject")
     for core in ("_on_next_core", "_on_error_core", "_on_completed_core"):
         SC.rule_snapshot(rep, repo.fn(S, f"Subject.{core}"))
